@@ -32,7 +32,8 @@ ASSUMPTIONS = [
     'slots outside head..tail are unspecified by the statement and not compared',
 ]
 
-OPS = ('press', 'inkey', 'clear', 'input1', 'lineinput')
+# ('cleartail': the tail pointer is moved onto the head instead of the head onto the tail: nothing is left between them)
+OPS = ('press', 'inkey', 'clear', 'input1', 'lineinput', 'cleartail')
 CAP = 15
 QUICK_DEPTH = 400
 
@@ -90,6 +91,15 @@ def _apply(s, op, model, npress, viols):
         r = H.run(s, b'POKE 1050,PEEK(1052)')
         if r.exc is not None or r.err is not None:
             viols.append(('clear/error', 'clear POKE failed: %r' % (r,)))
+        del model[:]
+    elif op == 'cleartail':
+        head = s.evaluate('PEEK(1050)')
+        r = H.run(s, b'POKE 1052,PEEK(1050)')
+        if r.exc is not None or r.err is not None:
+            viols.append(('cleartail/error', 'POKE 1052,PEEK(1050) failed: %r' % (r,)))
+        elif (s.evaluate('PEEK(1050)'), s.evaluate('PEEK(1052)')) != (head, head):
+            viols.append(('cleartail/pointers', 'after POKE 1052,PEEK(1050) with the head at %d: head %d, tail %d' % (
+                head, s.evaluate('PEEK(1050)'), s.evaluate('PEEK(1052)'))))
         del model[:]
     else:
         raise CheckError('unknown op %r' % (op,))
